@@ -68,8 +68,11 @@ int cmdCases(int argc, char** argv) {
 				std::vector<uint16_t> idx;
 				for (auto v : c["I"].ints()) idx.push_back((uint16_t) v);
 				for (int vi = 0; vi < 6; vi++)
-					for (int skinned = 0; skinned < 2; skinned++) {
+					// skinned: 0 none, 1 one partition, 2 two partitions with interleaved vertex ranges whose cached
+					// shape-indexed triangles are live when the deletion happens
+					for (int skinned = 0; skinned < 3; skinned++) {
 						if (skinned && (tris.empty() || std::string(vers[vi]) == "FO76")) continue;
+						if (skinned == 2 && tris.size() < 2) continue;
 						NifFile nif;
 						nif.Create(versionByName(vers[vi]));
 						NiShape* shape = buildShape(nif, "S", nv, tris, true);
@@ -98,11 +101,28 @@ int cmdCases(int argc, char** argv) {
 								NifFile::SetShapeSegments(sit, inf, tp);
 							}
 						}
+						if (skinned == 2) {
+							NiVector<BSDismemberSkinInstance::PartitionInfo> pinfo;
+							std::vector<int> tp;
+							if (!nif.GetShapePartitions(shape, pinfo, tp) || pinfo.empty()) continue;
+							BSDismemberSkinInstance::PartitionInfo pi;
+							pi.partID = 38;
+							pi.flags = PF_EDITOR_VISIBLE;
+							pinfo.push_back(pi);
+							for (size_t i = 0; i < tp.size(); i++) tp[i] = int(i % 2);
+							nif.SetShapePartitions(shape, pinfo, tp);
+							nif.UpdateSkinPartitions(shape);
+						}
 						JObj cj;
-						cj.add("case", (long long) k).add("ver", vers[vi]).add("skinned", skinned != 0);
+						cj.add("case", (long long) k).add("ver", vers[vi]).add("skinned", skinned != 0).add("twoParts", skinned == 2);
 						// normal form first: attribute values become the ones the storage format holds (halves, bytes)
 						NifFile model;
 						if (loadFromString(model, saveToString(nif, false, false)) != 0) continue;
+						if (skinned == 2) {
+							NiVector<BSDismemberSkinInstance::PartitionInfo> pinfo;
+							std::vector<int> tp;
+							model.GetShapePartitions(shapeByName(model, "S"), pinfo, tp);
+						}
 						deleteStep(model, "S", idx, cj.done(), skinned != 0, out);
 					}
 			}
